@@ -326,8 +326,32 @@ Definition check_run (c : case) (real_inos : bool) (before after : elist) (cls :
 
 (* C13: the explicit relation between the source tree and what is below the landing path,
    for a single (non-wildcard) source *)
+(* ... and for the matches of a wildcard source that land apart from all other matches: entry by
+   entry, with the inode partition when the source has no link groups *)
+Definition check_iso_wild (c : case) (after : elist) (landings : option (list (list bytes))) (merged : list bool) : bool :=
+  match landings, resolve_wild (k_src c) (k_srcarg c),
+        (match o_modestr (k_opts c) with [] => Some None | s => option_map Some (parse_mode s) end) with
+  | Some Ls, inl srcs, Some ms =>
+    let V := view_of_list after in
+    let nol := forallb (fun i => negb (multi_of (k_src c) i)) (s_inos (k_src c)) in
+    let idx := combine (seq 0 (length Ls)) Ls in
+    forallb (fun x : nat * (bytes * (list bytes * bool)) =>
+      let '(i, (s, (L, m))) := x in
+      if forallb (fun jl : nat * list bytes => Nat.eqb (fst jl) i || apart_b L (snd jl)) idx then
+        match s_resolve (k_src c) (rooted s) with
+        | inl sn =>
+          let rs := s_paths [] sn ++ flat_map (fun p => match strip_prefix L p with Some r => [r] | None => [] end)
+                                              (paths_of_list after) in
+          if nol then tree_iso_b (k_opts c) ms m sn L V rs else forallb (iso_at (k_opts c) ms m sn L V) rs
+        | inr _ => true
+        end
+      else true)
+      (combine (seq 0 (length srcs)) (combine srcs (combine Ls merged)))
+  | _, _, _ => true
+  end.
+
 Definition check_iso (c : case) (after : elist) (landings : option (list (list bytes))) (merged : list bool) : bool :=
-  if o_wild (k_opts c) then true else
+  if o_wild (k_opts c) then check_iso_wild c after landings merged else
   match landings, s_resolve (k_src c) (rooted (k_srcarg c)),
         (match o_modestr (k_opts c) with [] => Some None | s => option_map Some (parse_mode s) end) with
   | Some [L], inl sn, Some ms =>
